@@ -214,7 +214,7 @@ Fixpoint matching_coords (p1 p2 : list (option bool)) (t1 t2 : idx) : res idx :=
 
 (* one step of the loop of _match_coo up to the call of _match_arrays: the pairs of positions
    (into coords1, into coords2) whose coordinates agree on the axes both operands really have *)
-Definition match_pairs (sh1 : shape) (c1 : list idx) (sh2 : shape) (c2 : list idx)
+Definition match_pairs (srt : list Z -> list nat) (sh1 : shape) (c1 : list idx) (sh2 : shape) (c2 : list idx)
   : res (shape * list (option bool) * list (option bool) * list (nat * nat)) :=
   cur <- broadcast_shape2 false sh1 sh2 ;;
   let p1 := bcast_params sh1 cur in
@@ -225,8 +225,8 @@ Definition match_pairs (sh1 : shape) (c1 : list idx) (sh2 : shape) (c2 : list id
   let reduced_shape := select rp2 sh2 in
   let k1 := map (fun t => ravel reduced_shape (select rp1 t)) c1 in
   let k2 := map (fun t => ravel reduced_shape (select rp2 t)) c2 in
-  let s1 := argsort k1 in
-  let s2 := argsort k2 in
+  let s1 := srt k1 in
+  let s2 := srt k2 in
   let m := match_arrays (map (nthZ k1) s1) (map (nthZ k2) s2) in
   Ok (cur, p1, p2, map (fun ij => (nth (fst ij) s1 O, nth (snd ij) s2 O)) m).
 
@@ -235,6 +235,9 @@ Section Elemwise.
   Variable veqb : V -> V -> bool.
   Variable vzero : V.                     (* _zero_of_dtype; also the default of out-of-range reads *)
   Variable f : list V -> V.               (* the function applied, on the list of operand values *)
+  Variable srt : list Z -> list nat.      (* np.argsort inside _match_coo: ANY sorting permutation (its default
+                                             kind is unstable); the correspondence instantiates it with the
+                                             stable [argsort], the theorems hold for every choice *)
 
   (* the matched arrays of _match_coo: they share their coordinates, so one row = (coordinate,
      the values of the matched operands at it, in operand order) *)
@@ -243,7 +246,7 @@ Section Elemwise.
   (* one iteration `for arg2 in args[1:]` *)
   Definition match_step (m : shape * mrows) (a2 : coo V) : res (shape * mrows) :=
     let '(sh1, rows) := m in
-    '(cur, p1, p2, pairs) <- match_pairs sh1 (map fst rows) (c_shape a2) (c_coords a2) ;;
+    '(cur, p1, p2, pairs) <- match_pairs srt sh1 (map fst rows) (c_shape a2) (c_coords a2) ;;
     rows' <- mapM (fun ij =>
                let r1 := nth (fst ij) rows ([], []) in
                mc <- matching_coords p1 p2 (fst r1) (nth (snd ij) (c_coords a2) []) ;;
@@ -266,7 +269,7 @@ Section Elemwise.
 
   (* _match_coo(func_array, arg, return_midx=True)[0]: positions of func_array matched by arg *)
   Definition match_coo_midx (sh : shape) (coords : list idx) (arg : coo V) : res (list nat) :=
-    '(_, _, _, pairs) <- match_pairs sh coords (c_shape arg) (c_coords arg) ;;
+    '(_, _, _, pairs) <- match_pairs srt sh coords (c_shape arg) (c_coords arg) ;;
     Ok (map fst pairs).
 
   (* operands after _Elemwise.__init__: COO, or ndarray / scalar (0-d ndarray) *)
@@ -446,30 +449,44 @@ Definition astype_returns_self (same_dtype copy : bool) : bool :=
 Definition astype_object (self fresh : nat) (same_dtype copy : bool) : nat :=
   if astype_returns_self same_dtype copy then self else fresh.
 
-(* ------------------------------------------------------------------ output format (_Elemwise.__init__) *)
-Inductive fmt := FCoo | FGcxs (caxes : list Z) | FDok | FScipy | FOther.
+(* ------------------------------------------------------------------ output format (_Elemwise.__init__)
+   the decision chain (which class all sparse operands must have -> out_type; default; whether the common
+   compressed axes are kept; whether the zero-extent shortcut converts) is regenerated from the source:
+   Gen/S_umath.v (s_out_rules, s_out_default, s_gcxs_common_axes_kept, s_zero_extent_asformat) *)
+Inductive afmt := ACoo | AGcxs (caxes : list Z) | ADok | AScipy | AOther.     (* AGcxs []: compressed_axes=None (ndim < 2) *)
 Inductive ofmt := OutCoo | OutGcxs (caxes : option (list Z)) | OutDok.
 
-Definition is_sparse_array (x : fmt) : bool :=
-  match x with FCoo | FGcxs _ | FDok => true | _ => false end.
+Definition is_sparse_array (x : afmt) : bool :=
+  match x with ACoo | AGcxs _ | ADok => true | _ => false end.
 
-Definition out_format (fs : list fmt) : option ofmt :=
+Definition afmt_class (x : afmt) : Z := match x with ACoo => 0 | AGcxs _ => 1 | ADok => 2 | _ => -1 end.
+
+Fixpoint out_type_of (rules : list (Z * Z)) (sp : list afmt) : Z :=
+  match rules with
+  | [] => s_out_default
+  | (cls, o) :: r => if forallb (fun y => afmt_class y =? cls) sp then o else out_type_of r sp
+  end.
+
+Definition common_axes (sp : list afmt) : option (list Z) :=
+  match sp with
+  | AGcxs ca :: _ =>
+    if forallb (fun y => match y with AGcxs cb => if list_eq_dec Z.eq_dec ca cb then true else false
+                                 | _ => false end) sp
+    then (match ca with [] => None | _ => Some ca end) else None
+  | _ => None
+  end.
+
+Definition out_format (fs : list afmt) : option ofmt :=
   let sp := filter is_sparse_array fs in
   match sp with
   | [] => None                                         (* ValueError: none of the args is sparse *)
-  | x :: _ =>
-    if forallb (fun y => match y with FDok => true | _ => false end) sp then Some OutDok
-    else if forallb (fun y => match y with FGcxs _ => true | _ => false end) sp then
-      match x with
-      | FGcxs ca =>
-        if forallb (fun y => match y with FGcxs cb => if list_eq_dec Z.eq_dec ca cb then true else false
-                                     | _ => false end) sp
-        then Some (OutGcxs (Some ca)) else Some (OutGcxs None)
-      | _ => Some (OutGcxs None)
-      end
-    else Some OutCoo
+  | _ =>
+    let ty := out_type_of s_out_rules sp in
+    Some (if ty =? 2 then OutDok
+          else if ty =? 1 then OutGcxs (if s_gcxs_common_axes_kept then common_axes sp else None)
+          else OutCoo)
   end.
 
 (* get_result returns the empty COO directly (no .asformat(out_type)) when an extent is 0 *)
 Definition result_format (o : ofmt) (sh : shape) : ofmt :=
-  if existsb (Z.eqb 0) sh then OutCoo else o.
+  if existsb (Z.eqb 0) sh && negb s_zero_extent_asformat then OutCoo else o.
